@@ -896,7 +896,9 @@ class NonMementoFunctionHashRule(HashRule):
         except (AttributeError, KeyError):
             # The symbol no longer resolves at all (it was removed)
             return True
-        return self.src_fn != new_fn
+        # Identity: the symbol may have been rebound to anything (comparing with an array is
+        # element-wise and has no truth value)
+        return self.src_fn is not new_fn
 
     def __repr__(self):
         return f"NonMementoFunctionHashRule(key={self.key})"
